@@ -9,7 +9,7 @@ def sh(cmd, cwd="/repo", timeout=3000):
     p = subprocess.run(cmd, shell=True, cwd=cwd, env=ENV, capture_output=True, text=True, timeout=timeout)
     return p.returncode, (p.stdout + p.stderr)
 def main():
-    src, sid = sys.argv[1], sys.argv[2]
+    src, sid = os.path.abspath(sys.argv[1]), sys.argv[2]
     checks = sys.argv[3:] or [sid.split("-")[0]]
     tier = os.environ.get("SEED_TIER", "quick")
     patch = os.path.join(src, "patch.diff")
@@ -54,13 +54,16 @@ def main():
     meta["detected_by"] = [r["check"] for r in meta["ran"] if r["exit"] == 1]
     dst = f"/verif/seeded/{sid}"
     os.makedirs(dst, exist_ok=True)
-    shutil.copy(patch, dst + "/patch.diff")
-    shutil.copy(demo, dst + "/demo_test.go")
+    if os.path.abspath(dst) != src:
+        shutil.copy(patch, dst + "/patch.diff")
+        shutil.copy(demo, dst + "/demo_test.go")
     if os.path.exists(os.path.join(src, "README.md")):
         meta["needs_to_manifest"] = open(os.path.join(src, "README.md")).read()[:1800]
     old = {}
     if os.path.exists(dst + "/meta.json"):
         old = json.load(open(dst + "/meta.json"))
+        if "needs_to_manifest" not in meta and "needs_to_manifest" in old:
+            meta["needs_to_manifest"] = old["needs_to_manifest"]
         prev = {r["check"] + "/" + r["tier"]: r for r in old.get("ran", [])}
         for r in meta["ran"]: prev[r["check"] + "/" + r["tier"]] = r
         meta["ran"] = list(prev.values())
